@@ -378,6 +378,10 @@ def is_enum_pos(t):
 
 
 def check(run, fx, tier, floors=True):
+    if floors:
+        # window bookkeeping of the fraction features (shared with C04)
+        import rules_C04
+        rules_C04.t04_frac(run, fx)
     import ignored
     ignored.run_for(run, fx, 'C02', floors)
     if floors or fx.body("layout::new_layout_cache") is not None:
